@@ -348,6 +348,14 @@ def parse_tips():
             raise Untranslatable(f"tip_heights.rs: {k} not found")
     return tips
 
+def parse_bug_tx():
+    """the one grandfathered faucet transaction of mainnet (applytx.rs INFLATION_BUG_TX_HASH)"""
+    src = strip_comments(open(f"{REPO}/src/state/applytx.rs").read())
+    m = re.search(r'const INFLATION_BUG_TX_HASH: &str =\s*"([0-9a-f]{64})";', src)
+    if not m:
+        raise Untranslatable("applytx.rs: INFLATION_BUG_TX_HASH not found")
+    return int(m.group(1), 16), m.group(1)
+
 def main(out):
     opbytes, haddr = parse_consts()
     types, enc_byte, enc_shape, dec_byte, dec_shape, src = parse_opcode_rs(opbytes)
@@ -391,6 +399,10 @@ def main(out):
     L.append("")
     for k, v in sorted(tips.items()):
         L.append(f"Definition {k} : N := {v}.")
+    L.append("")
+    bug, bughex = parse_bug_tx()
+    L.append(f"(* INFLATION_BUG_TX_HASH = 0x{bughex} *)")
+    L.append(f"Definition BUG_TX_HASH : N := {bug}.")
     L.append("")
     text = "\n".join(L)
     old = open(out).read() if os.path.exists(out) else None
